@@ -9,11 +9,25 @@ import sys
 import time
 
 VERIF = os.path.dirname(os.path.dirname(os.path.abspath(__file__)))
-MODULES = ["contracts.c04_periods", "contracts.engine", "contracts.c03_requests", "contracts.c06_parameters", "contracts.c16_set_input", "contracts.c13_clone", "contracts.c14_reforms", "contracts.c18_engine", "contracts.c17_storage", "contracts.c15_enums", "contracts.c10_groups", "contracts.c07_views"]
+MODULES = ["contracts.c04_periods", "contracts.engine", "contracts.c03_requests", "contracts.c06_parameters", "contracts.c16_set_input", "contracts.c13_clone", "contracts.c14_reforms", "contracts.c18_engine", "contracts.c17_storage", "contracts.c15_enums", "contracts.c10_groups", "contracts.c07_views", "contracts.c19_dump"]
 
 CAL_THEORY = "calendar (OM/DIM opaque, lemma instances; closed forms = Hinnant days-from-civil), validated against datetime"
 
 PROPS = {
+    "C19": {
+        "theories": ["file system as a ghost map path -> array; storage view of C17"],
+        "lemmas": [],
+        "validations": ["numpyio", "numpy"],
+        "assumptions": [
+            "numpy.save / numpy.load round trip per dtype (assumed; validated natively for bool, int32, float32, datetime64[D], enum indices); object dtype (string variables) does not load without pickle",
+            "periods.period(str(p)) == p for stored periods (size one or eternity): the C05 round trip, assumed here",
+            "os.listdir returns the names created in the directory; os.path.join is injective",
+            "numpy.select: first matching choice (validated against numpy)",
+        ],
+        "bounded": ["_restore_holder: a holder with two stored periods (symbolic) / one eternal entry; the loops over known periods are unrolled"],
+        "not_decided": ["dump_simulation / restore_simulation orchestration (directory checks, order of populations)",
+                        "string variables (object dtype): not restorable without pickle - outside the assumed round trip"],
+    },
     "C07": {
         "theories": ["parameter views: VIEW_AT(tree, instant) opaque; representation invariant MemoOK (every memoised view of a system is the view of its current tree)"],
         "lemmas": [],
